@@ -31,4 +31,4 @@ def run(r):
         "partitioning of text fragments into elements is NOT modelled: observed end-to-end only",
         "serialised output is observed through the Debug rendering of Vec<RagChunk> (the harness crate does not enable the `semantic` feature that provides to_json)",
     ]
-    return standard(r, "c15", ["theories/C15/Proofs.vo"], ["theories/C15/Model.vo"], ["hp", "pg", "id", "e2e"], classify=classify)
+    return standard(r, "c15", ["theories/C15/Proofs.vo", "theories/C15/Stretch.vo"], ["theories/C15/Model.vo"], ["hp", "pg", "id", "e2e"], classify=classify)
